@@ -61,6 +61,14 @@ NUM_EXPRS = [
     ("X(BUTTON)+X(BUTTON)", ("bin", "+", ("arr", "X", [F("BUTTON", n(0))]), ("arr", "X", [F("BUTTON", n(0))]))),
     ("-INT", ("un", "-", F("INT", A))),
     ("INT AND BUTTON", ("bin", "AND", F("INT", n(7)), F("BUTTON", n(0)))),
+    ("NOT BUTTON", ("un", "NOT", F("BUTTON", n(0)))),
+    ("-JOYSTK", ("un", "-", F("JOYSTK", n(0)))),
+    ("+INT", ("un", "+", F("INT", ("bin", "/", C, n(2))))),
+    ("BUTTON(0)+BUTTON(0)", ("bin", "+", ("bin", "*", F("BUTTON", n(0)), n(10)), F("BUTTON", n(0)))),
+    ("JOYSTK(0)*JOYSTK(0)", ("bin", "*", F("JOYSTK", n(0)), F("JOYSTK", n(0)))),
+    ("INT(RND)+INT(RND)", ("bin", "+", ("bin", "*", F("INT", F("RND", n(0))), n(10)), F("INT", F("RND", n(0))))),
+    ("POINT(BUTTON(0),BUTTON(0))", F("POINT", F("BUTTON", n(0)), F("BUTTON", n(0)))),
+    ("INT(PEEK)-INT(PEEK)", ("bin", "-", F("INT", F("PEEK", n(100))), F("INT", F("PEEK", n(100))))),
 ]
 STR_EXPRS = [
     ("STR$", F("STR$", A)),
@@ -87,7 +95,8 @@ RS = ("var", "R$")
 
 NUM_CARRIERS = ["sub_both", "sub_both2", "assign", "assign_elem", "sub_rhs", "sub_lhs", "if_noelse", "if_else", "if_elif_cond", "if_arm", "for_start",
                 "for_limit", "for_step", "print_item", "print_at_pos", "on_sel", "dev_cls", "dev_hline", "dev_sound",
-                "dev_hcircle", "dev_poke", "read_sub", "input_sub", "loop_body", "jump_target", "two_statements", "width"]
+                "dev_hcircle", "dev_poke", "read_sub", "input_sub", "loop_body", "jump_target", "two_statements", "width",
+                "assign_raw", "assign_elem_raw", "print_raw", "print_item_raw", "print_at_raw", "print_last_raw"]
 STR_CARRIERS = ["assign_s", "assign_elem_s", "print_item_s", "print_at_item_s", "if_s_noelse", "if_s_else", "dev_hprint",
                 "dev_hdraw", "loop_body_s", "len_assign"]
 
@@ -95,6 +104,18 @@ STR_CARRIERS = ["assign_s", "assign_elem_s", "print_item_s", "print_at_item_s", 
 def carrier(name, e):
     """-> list of program lines (after the setup lines)"""
     one = lambda st: [(30, st)]
+    if name == "assign_raw":
+        return one([("let", R, e, False)])
+    if name == "assign_elem_raw":
+        return one([("let", ("arr", "Y", [n(2)]), e, False)])
+    if name == "print_raw":
+        return one([("print", [("e", e)], None)])
+    if name == "print_item_raw":
+        return one([("print", [("e", ("str", "V")), ("sep", ";"), ("e", e), ("sep", ";"), ("e", A)], None)])
+    if name == "print_last_raw":
+        return one([("print", [("e", A), ("sep", ","), ("e", e), ("sep", ";")], None)])
+    if name == "print_at_raw":
+        return one([("print", [("e", e), ("sep", ";"), ("e", ("str", "!"))], n(5))])
     e = e if e[0] in ("fn", "arr", "par") else ("par", e)
     if name == "assign":
         return one([("let", R, e, False)])
@@ -330,7 +351,7 @@ def run_case(case):
     detail = {"source": "\n".join(text.split("\n")[3:])[:400], "emitted": tail[-700:], "nesting": ename, "carrier": cname}
     cls = "IF-ELSE" if cname in ("if_else", "if_elif_cond", "if_s_else") else (
         "READ-INPUT-subscript" if cname in ("read_sub", "input_sub") else cname)
-    if cname == "print_item" and e[0] in ("bin", "un", "par"):
+    if cname in ("print_item", "print_raw", "print_item_raw", "print_last_raw", "print_at_raw") and e[0] in ("bin", "un", "par"):
         cls = "PRINT-item-compound-numeric"
     # static monitor
     bad = static_tmp_check(conv["out"])
